@@ -455,6 +455,18 @@ def schedules(res: Result, shard_i: int, shard_n: int, total: int, sigs: set, li
                 res.count("schedules_with_switch_inside_kio")
                 sigs.add(s.signature())
                 lines.update(f"{f}:{ln}" for f, ln in s.lines)
+            if not failures:
+                # quiescent point: the same objects once more, sequentially - what an interleaving left behind in a cached reader or writer
+                # may only show on the next use
+                for t in range(nthreads):
+                    for o, case in enumerate(thread_cases[t]):
+                        try:
+                            why = do_encode(case) or do_decode(case)
+                        except Exception as exc:  # noqa: BLE001
+                            why = f"raised {exc!r}"
+                        if why:
+                            failures.append((t, o, "afterwards, sequentially: " + why))
+                res.count("schedule_quiescent_rechecks")
             if failures:
                 t, o, why = failures[0]
                 res.violation(f"sched:{'warm' if warm else 'cold'}:{thread_cases[t][o].cls.__name__}",
@@ -768,6 +780,18 @@ def contention_schedules(res: Result, shard_i: int, shard_n: int, sigs: set) -> 
                 if not done:
                     res.inconclusive_because(f"contention schedule for {path} did not finish")
                     break
+                if not errors:
+                    # at the quiescent point: whatever the interleaving left behind in the cached reader/writer shows when the same two
+                    # objects are used once more, sequentially
+                    for who, case in ((1, b), (0, a)):
+                        for op in (do_encode, do_decode):
+                            try:
+                                bad = op(case)
+                            except Exception as exc:  # noqa: BLE001
+                                bad = f"{op.__name__} raised {exc!r}"
+                            if bad:
+                                errors.append((who, "afterwards, sequentially: " + bad))
+                    res.count("contention_quiescent_rechecks")
                 if errors:
                     who, bad = errors[0]
                     res.violation(f"contention:{cls.__name__}", f"two threads using the readers/writers of {path} with different values, thread 0 preempted once at yield point {point} of {horizon}"
